@@ -15,6 +15,7 @@ package writer
 //@ modifies-group WRITER = writer.writer.*, @STATE, pools.*
 //@ modifies-group BUF = buffer.*, uint8
 //@ modifies-group NOTSTACK = writer.writer.*, writer.writerState.*, writer.listStack.*, writer.messageStack.*, writer.stackEntry.*, format.ListElement.*, format.MessageField.*, pools.*
+//@ modifies-group NOTSF = writer.writer.*, writer.writerState.*, writer.listStack.*, format.ListElement.*, pools.*
 //@ modifies-group NOTSTACKS = writer.writer.*, writer.writerState.*, writer.listStack.*, writer.messageStack.*, format.ListElement.*, format.MessageField.*, pools.*
 
 //@ define WI(w) = w != nil && (w.err == nil ==> w.writerState != nil && w.writerState.buf != nil)
@@ -528,6 +529,9 @@ package writer
 //@   ensures[C12] old(w.err) == nil && result == nil ==> w.err == nil
 //   C01: stack discipline - a message entry starts at the buffer end and at the end of the field stack
 //@   ensures[C01] old(w.err) == nil && result == nil ==> NS(w) == old(NS(w)) + 1 && SE(w, NS(w) - 1).type_ == 4 && SE(w, NS(w) - 1).start == old(BL(w)) && SE(w, NS(w) - 1).tableStart == old(NF(w)) && NE(w) == old(NE(w)) && NF(w) == old(NF(w))
+//@   ensures[C01] old(w.err) == nil ==> result == nil
+//@   preserves old(w.err) == nil : @NOTSTACKS
+//@   ensures[C01] old(w.err) == nil ==> (forall k :: 0 <= k && k < old(NS(w)) ==> SE(w, k).start == old(SE(w, k).start) && SE(w, k).tableStart == old(SE(w, k).tableStart) && SE(w, k).type_ == old(SE(w, k).type_))
 
 //@ func (*writer).beginField
 //@   safety[C12]
@@ -577,10 +581,12 @@ package writer
 //   C01: the field table entry records the tag and the END of the field's data relative to the
 //   start of the enclosing message (data entry = old top of stack, message = the entry below it)
 //@   ensures[C01] old(w.err) == nil && result == nil ==> old(NS(w)) >= 2 && NS(w) == old(NS(w)) - 1 && NF(w) == old(NF(w)) + 1
-//@   ensures[C01] old(w.err) == nil && result == nil && old(BL(w)) <= 4294967295 ==>
+//@   ensures[C01] old(w.err) == nil && result == nil && old(SE(w, NS(w) - 1).tableStart) - old(SE(w, NS(w) - 2).start) <= 4294967295 ==>
 //@        (exists p :: old(SE(w, NS(w) - 2).tableStart) <= p && p < NF(w) && FE(w, p).Tag == tag
 //@           && FE(w, p).Offset == old(SE(w, NS(w) - 1).tableStart) - old(SE(w, NS(w) - 2).start))
 //@   ensures[C01] old(w.err) == nil && result == nil ==> (forall k :: 0 <= k && k < old(SE(w, NS(w) - 2).tableStart) ==> FE(w, k).Tag == old(FE(w, k).Tag) && FE(w, k).Offset == old(FE(w, k).Offset))
+//@   preserves old(w.err) == nil && result == nil : @NOTSF
+//@   ensures[C01] old(w.err) == nil && result == nil ==> (forall k :: 0 <= k && k < NS(w) ==> SE(w, k).start == old(SE(w, k).start) && SE(w, k).tableStart == old(SE(w, k).tableStart) && SE(w, k).type_ == old(SE(w, k).type_))
 
 //@ func (*writer).hasField
 //@   safety[C12]
@@ -654,6 +660,13 @@ package writer
 //@   ensures[C01] old(w.err) == nil && result1 == nil ==> BL(w) == mL0 + mTS + uvarintLen(mDS) + uvarintLen(mTS) + 1 && isUvarint(bytesOf(bobj(w.writerState.buf)), mL0 + mTS, uvarintLen(mDS), mDS)
 //@   ensures[C01] old(w.err) == nil && result1 == nil && !mBig ==> (forall k :: 0 <= k && k < mN ==> smallTag(bytesOf(bobj(w.writerState.buf)), mL0, k) == old(mTab[k].Tag) && smallOff(bytesOf(bobj(w.writerState.buf)), mL0, k) == old(mTab[k].Offset))
 //@   ensures[C01] old(w.err) == nil && result1 == nil && mBig ==> (forall k :: 0 <= k && k < mN ==> bigTag(bytesOf(bobj(w.writerState.buf)), mL0, k) == old(mTab[k].Tag) && bigOff(bytesOf(bobj(w.writerState.buf)), mL0, k) == old(mTab[k].Offset))
+//   ... followed by the table size and the type byte; earlier bytes stay; the result is the slice
+//   [message start, buffer end) of the buffer, and the writer still writes to the same buffer
+//@   ensures[C01] old(w.err) == nil && result1 == nil ==> isUvarint(bytesOf(bobj(w.writerState.buf)), mL0 + mTS + uvarintLen(mDS), uvarintLen(mTS), mTS) && bytesOf(bobj(w.writerState.buf))[BL(w) - 1] == ite(mBig, 81, 80)
+//@   ensures[C01] old(w.err) == nil && result1 == nil ==> (forall i :: 0 <= i && i < mL0 ==> bytesOf(bobj(w.writerState.buf))[i] == old(bytesOf(bobj(w.writerState.buf)))[i])
+//@   ensures[C01] old(w.err) == nil && result1 == nil ==> obj(result0) == bobj(w.writerState.buf) && lo(result0) == SE(w, NS(w) - 1).start && len(result0) == BL(w) - SE(w, NS(w) - 1).start
+//@   ensures[C01] old(w.err) == nil && result1 == nil ==> w.writerState == old(w.writerState) && w.writerState.buf == old(w.writerState.buf)
+//@   ensures[C01] old(w.err) == nil && result1 == nil ==> (forall k :: 0 <= k && k < NS(w) - 1 ==> SE(w, k).start == old(SE(w, k).start) && SE(w, k).tableStart == old(SE(w, k).tableStart) && SE(w, k).type_ == old(SE(w, k).type_))
 
 // ---- writer: values and end
 
@@ -700,6 +713,26 @@ package writer
 //@   ensures[C12] w.err == nil ==> STK6(w)
 //@   ensures[C12] w.err == nil ==> STK7(w)
 //@   ensures[C12] STICKY(w, err)
+//   C01: ending the ROOT message (the only open object) returns the slice [message start, buffer
+//   end) of the writer's buffer; the bytes appended are exactly those of endMessage: the field table
+//   in stack order, the data size, the table size, the type byte; earlier bytes stay.
+//@   let eB = w.writerState.buf
+//@   let eS = SE(w, 0).start
+//@   let eT0 = SE(w, 0).tableStart
+//@   let eN = NF(w) - eT0
+//@   let eL0 = BL(w)
+//@   let eDS = eL0 - eS
+//@   let eTab = w.writerState.fields.stack[eT0:NF(w)]
+//@   let eBig = exists k :: 0 <= k && k < len(eTab) && (eTab[k].Tag > 255 || eTab[k].Offset > 65535)
+//@   let eTS = eN * ite(eBig, 6, 3)
+//@   let eRoot = w.err == nil && NS(w) == 1 && SE(w, 0).type_ == 4
+//@   ensures[C01] eRoot && err == nil ==> obj(result) == bobj(eB) && lo(result) == eS && len(result) == eDS + eTS + uvarintLen(eDS) + uvarintLen(eTS) + 1
+//@   ensures[C01] eRoot && err == nil && !eBig ==> (forall k :: 0 <= k && k < eN ==> smallTag(bytesOf(bobj(eB)), eL0, k) == old(eTab[k].Tag) && smallOff(bytesOf(bobj(eB)), eL0, k) == old(eTab[k].Offset))
+//@   ensures[C01] eRoot && err == nil && eBig ==> (forall k :: 0 <= k && k < eN ==> bigTag(bytesOf(bobj(eB)), eL0, k) == old(eTab[k].Tag) && bigOff(bytesOf(bobj(eB)), eL0, k) == old(eTab[k].Offset))
+//@   ensures[C01] eRoot && err == nil ==> isUvarint(bytesOf(bobj(eB)), eL0 + eTS, uvarintLen(eDS), eDS)
+//@   ensures[C01] eRoot && err == nil ==> isUvarint(bytesOf(bobj(eB)), eL0 + eTS + uvarintLen(eDS), uvarintLen(eTS), eTS)
+//@   ensures[C01] eRoot && err == nil ==> bytesOf(bobj(eB))[eL0 + eTS + uvarintLen(eDS) + uvarintLen(eTS)] == ite(eBig, 81, 80)
+//@   ensures[C01] eRoot && err == nil ==> (forall i :: 0 <= i && i < eL0 ==> bytesOf(bobj(eB))[i] == old(bytesOf(bobj(eB)))[i])
 
 // ---- construction
 
@@ -802,6 +835,17 @@ package writer
 //@   modifies @BUF
 //@   ensures[C12] isptr(result, writer) && WI(unbox(result, writer)) && unbox(result, writer).err == nil && NS(unbox(result, writer)) == 0 && NE(unbox(result, writer)) == 0 && NF(unbox(result, writer)) == 0
 
+// ---- C01 composition over a real call sequence (ghost_verif.go): new writer, Message,
+// Field(tag).Int32(v), Build, then the real reader: whenever no call reports an error, the field
+// read back is exactly v. Proved from the contracts of the callees alone, for every buffer, tag, v.
+//@ func ghostMessageOneField
+//@   requires buf != nil
+//@   modifies @WRITER
+//@   modifies @BUF
+//@   modifies writer.MessageWriter.*
+//@   ensures[C01] result1 == nil ==> result0 == v
+//@   canary[C01] result0 == 0
+
 // ---- handles (generated by /verif/tools/gen_writer_contracts.py)
 
 //@ func (ValueWriter).Build
@@ -840,6 +884,7 @@ package writer
 //@   modifies @BUF
 //@   preserves result == nil : @NOTSTACKS
 //@   ensures[C01] old(w.w.err) == nil && result == nil ==> NS(w.w) == old(NS(w.w)) + 1 && SE(w.w, NS(w.w) - 1).type_ == 1 && SE(w.w, NS(w.w) - 1).start == old(BL(w.w)) && SE(w.w, NS(w.w) - 1).tableStart == BL(w.w)
+//@   ensures[C01] old(w.w.err) == nil && result == nil ==> (forall k :: 0 <= k && k < old(NS(w.w)) ==> SE(w.w, k).start == old(SE(w.w, k).start) && SE(w.w, k).tableStart == old(SE(w.w, k).tableStart) && SE(w.w, k).type_ == old(SE(w.w, k).type_))
 //@   ensures[C12] WI(w.w)
 //@   ensures[C12] w.w.err == nil ==> STK1(w.w)
 //@   ensures[C12] w.w.err == nil ==> STK2(w.w)
@@ -864,6 +909,7 @@ package writer
 //@   modifies @BUF
 //@   preserves result == nil : @NOTSTACKS
 //@   ensures[C01] old(w.w.err) == nil && result == nil ==> NS(w.w) == old(NS(w.w)) + 1 && SE(w.w, NS(w.w) - 1).type_ == 1 && SE(w.w, NS(w.w) - 1).start == old(BL(w.w)) && SE(w.w, NS(w.w) - 1).tableStart == BL(w.w)
+//@   ensures[C01] old(w.w.err) == nil && result == nil ==> (forall k :: 0 <= k && k < old(NS(w.w)) ==> SE(w.w, k).start == old(SE(w.w, k).start) && SE(w.w, k).tableStart == old(SE(w.w, k).tableStart) && SE(w.w, k).type_ == old(SE(w.w, k).type_))
 //@   ensures[C12] WI(w.w)
 //@   ensures[C12] w.w.err == nil ==> STK1(w.w)
 //@   ensures[C12] w.w.err == nil ==> STK2(w.w)
@@ -888,6 +934,7 @@ package writer
 //@   modifies @BUF
 //@   preserves result == nil : @NOTSTACKS
 //@   ensures[C01] old(w.w.err) == nil && result == nil ==> NS(w.w) == old(NS(w.w)) + 1 && SE(w.w, NS(w.w) - 1).type_ == 1 && SE(w.w, NS(w.w) - 1).start == old(BL(w.w)) && SE(w.w, NS(w.w) - 1).tableStart == BL(w.w)
+//@   ensures[C01] old(w.w.err) == nil && result == nil ==> (forall k :: 0 <= k && k < old(NS(w.w)) ==> SE(w.w, k).start == old(SE(w.w, k).start) && SE(w.w, k).tableStart == old(SE(w.w, k).tableStart) && SE(w.w, k).type_ == old(SE(w.w, k).type_))
 //@   ensures[C12] WI(w.w)
 //@   ensures[C12] w.w.err == nil ==> STK1(w.w)
 //@   ensures[C12] w.w.err == nil ==> STK2(w.w)
@@ -912,6 +959,7 @@ package writer
 //@   modifies @BUF
 //@   preserves result == nil : @NOTSTACKS
 //@   ensures[C01] old(w.w.err) == nil && result == nil ==> NS(w.w) == old(NS(w.w)) + 1 && SE(w.w, NS(w.w) - 1).type_ == 1 && SE(w.w, NS(w.w) - 1).start == old(BL(w.w)) && SE(w.w, NS(w.w) - 1).tableStart == BL(w.w)
+//@   ensures[C01] old(w.w.err) == nil && result == nil ==> (forall k :: 0 <= k && k < old(NS(w.w)) ==> SE(w.w, k).start == old(SE(w.w, k).start) && SE(w.w, k).tableStart == old(SE(w.w, k).tableStart) && SE(w.w, k).type_ == old(SE(w.w, k).type_))
 //@   ensures[C12] WI(w.w)
 //@   ensures[C12] w.w.err == nil ==> STK1(w.w)
 //@   ensures[C12] w.w.err == nil ==> STK2(w.w)
@@ -936,6 +984,9 @@ package writer
 //@   modifies @BUF
 //@   preserves result == nil : @NOTSTACKS
 //@   ensures[C01] old(w.w.err) == nil && result == nil ==> NS(w.w) == old(NS(w.w)) + 1 && SE(w.w, NS(w.w) - 1).type_ == 1 && SE(w.w, NS(w.w) - 1).start == old(BL(w.w)) && SE(w.w, NS(w.w) - 1).tableStart == BL(w.w)
+//@   ensures[C01] old(w.w.err) == nil && result == nil ==> (forall k :: 0 <= k && k < old(NS(w.w)) ==> SE(w.w, k).start == old(SE(w.w, k).start) && SE(w.w, k).tableStart == old(SE(w.w, k).tableStart) && SE(w.w, k).type_ == old(SE(w.w, k).type_))
+//@   ensures[C01] old(w.w.err) == nil && result == nil ==> BL(w.w) == old(BL(w.w)) + uvarintLen(zigzag(v)) + 1 && isUvarint(bytesOf(bobj(w.w.writerState.buf)), old(BL(w.w)), uvarintLen(zigzag(v)), zigzag(v)) && bytesOf(bobj(w.w.writerState.buf))[BL(w.w) - 1] == 11
+//@   ensures[C01] old(w.w.err) == nil && result == nil ==> (forall i :: 0 <= i && i < old(BL(w.w)) ==> bytesOf(bobj(w.w.writerState.buf))[i] == old(bytesOf(bobj(w.w.writerState.buf)))[i])
 //@   ensures[C12] WI(w.w)
 //@   ensures[C12] w.w.err == nil ==> STK1(w.w)
 //@   ensures[C12] w.w.err == nil ==> STK2(w.w)
@@ -960,6 +1011,7 @@ package writer
 //@   modifies @BUF
 //@   preserves result == nil : @NOTSTACKS
 //@   ensures[C01] old(w.w.err) == nil && result == nil ==> NS(w.w) == old(NS(w.w)) + 1 && SE(w.w, NS(w.w) - 1).type_ == 1 && SE(w.w, NS(w.w) - 1).start == old(BL(w.w)) && SE(w.w, NS(w.w) - 1).tableStart == BL(w.w)
+//@   ensures[C01] old(w.w.err) == nil && result == nil ==> (forall k :: 0 <= k && k < old(NS(w.w)) ==> SE(w.w, k).start == old(SE(w.w, k).start) && SE(w.w, k).tableStart == old(SE(w.w, k).tableStart) && SE(w.w, k).type_ == old(SE(w.w, k).type_))
 //@   ensures[C12] WI(w.w)
 //@   ensures[C12] w.w.err == nil ==> STK1(w.w)
 //@   ensures[C12] w.w.err == nil ==> STK2(w.w)
@@ -984,6 +1036,7 @@ package writer
 //@   modifies @BUF
 //@   preserves result == nil : @NOTSTACKS
 //@   ensures[C01] old(w.w.err) == nil && result == nil ==> NS(w.w) == old(NS(w.w)) + 1 && SE(w.w, NS(w.w) - 1).type_ == 1 && SE(w.w, NS(w.w) - 1).start == old(BL(w.w)) && SE(w.w, NS(w.w) - 1).tableStart == BL(w.w)
+//@   ensures[C01] old(w.w.err) == nil && result == nil ==> (forall k :: 0 <= k && k < old(NS(w.w)) ==> SE(w.w, k).start == old(SE(w.w, k).start) && SE(w.w, k).tableStart == old(SE(w.w, k).tableStart) && SE(w.w, k).type_ == old(SE(w.w, k).type_))
 //@   ensures[C12] WI(w.w)
 //@   ensures[C12] w.w.err == nil ==> STK1(w.w)
 //@   ensures[C12] w.w.err == nil ==> STK2(w.w)
@@ -1008,6 +1061,7 @@ package writer
 //@   modifies @BUF
 //@   preserves result == nil : @NOTSTACKS
 //@   ensures[C01] old(w.w.err) == nil && result == nil ==> NS(w.w) == old(NS(w.w)) + 1 && SE(w.w, NS(w.w) - 1).type_ == 1 && SE(w.w, NS(w.w) - 1).start == old(BL(w.w)) && SE(w.w, NS(w.w) - 1).tableStart == BL(w.w)
+//@   ensures[C01] old(w.w.err) == nil && result == nil ==> (forall k :: 0 <= k && k < old(NS(w.w)) ==> SE(w.w, k).start == old(SE(w.w, k).start) && SE(w.w, k).tableStart == old(SE(w.w, k).tableStart) && SE(w.w, k).type_ == old(SE(w.w, k).type_))
 //@   ensures[C12] WI(w.w)
 //@   ensures[C12] w.w.err == nil ==> STK1(w.w)
 //@   ensures[C12] w.w.err == nil ==> STK2(w.w)
@@ -1032,6 +1086,7 @@ package writer
 //@   modifies @BUF
 //@   preserves result == nil : @NOTSTACKS
 //@   ensures[C01] old(w.w.err) == nil && result == nil ==> NS(w.w) == old(NS(w.w)) + 1 && SE(w.w, NS(w.w) - 1).type_ == 1 && SE(w.w, NS(w.w) - 1).start == old(BL(w.w)) && SE(w.w, NS(w.w) - 1).tableStart == BL(w.w)
+//@   ensures[C01] old(w.w.err) == nil && result == nil ==> (forall k :: 0 <= k && k < old(NS(w.w)) ==> SE(w.w, k).start == old(SE(w.w, k).start) && SE(w.w, k).tableStart == old(SE(w.w, k).tableStart) && SE(w.w, k).type_ == old(SE(w.w, k).type_))
 //@   ensures[C12] WI(w.w)
 //@   ensures[C12] w.w.err == nil ==> STK1(w.w)
 //@   ensures[C12] w.w.err == nil ==> STK2(w.w)
@@ -1056,6 +1111,7 @@ package writer
 //@   modifies @BUF
 //@   preserves result == nil : @NOTSTACKS
 //@   ensures[C01] old(w.w.err) == nil && result == nil ==> NS(w.w) == old(NS(w.w)) + 1 && SE(w.w, NS(w.w) - 1).type_ == 1 && SE(w.w, NS(w.w) - 1).start == old(BL(w.w)) && SE(w.w, NS(w.w) - 1).tableStart == BL(w.w)
+//@   ensures[C01] old(w.w.err) == nil && result == nil ==> (forall k :: 0 <= k && k < old(NS(w.w)) ==> SE(w.w, k).start == old(SE(w.w, k).start) && SE(w.w, k).tableStart == old(SE(w.w, k).tableStart) && SE(w.w, k).type_ == old(SE(w.w, k).type_))
 //@   ensures[C12] WI(w.w)
 //@   ensures[C12] w.w.err == nil ==> STK1(w.w)
 //@   ensures[C12] w.w.err == nil ==> STK2(w.w)
@@ -1080,6 +1136,7 @@ package writer
 //@   modifies @BUF
 //@   preserves result == nil : @NOTSTACKS
 //@   ensures[C01] old(w.w.err) == nil && result == nil ==> NS(w.w) == old(NS(w.w)) + 1 && SE(w.w, NS(w.w) - 1).type_ == 1 && SE(w.w, NS(w.w) - 1).start == old(BL(w.w)) && SE(w.w, NS(w.w) - 1).tableStart == BL(w.w)
+//@   ensures[C01] old(w.w.err) == nil && result == nil ==> (forall k :: 0 <= k && k < old(NS(w.w)) ==> SE(w.w, k).start == old(SE(w.w, k).start) && SE(w.w, k).tableStart == old(SE(w.w, k).tableStart) && SE(w.w, k).type_ == old(SE(w.w, k).type_))
 //@   ensures[C12] WI(w.w)
 //@   ensures[C12] w.w.err == nil ==> STK1(w.w)
 //@   ensures[C12] w.w.err == nil ==> STK2(w.w)
@@ -1104,6 +1161,7 @@ package writer
 //@   modifies @BUF
 //@   preserves result == nil : @NOTSTACKS
 //@   ensures[C01] old(w.w.err) == nil && result == nil ==> NS(w.w) == old(NS(w.w)) + 1 && SE(w.w, NS(w.w) - 1).type_ == 1 && SE(w.w, NS(w.w) - 1).start == old(BL(w.w)) && SE(w.w, NS(w.w) - 1).tableStart == BL(w.w)
+//@   ensures[C01] old(w.w.err) == nil && result == nil ==> (forall k :: 0 <= k && k < old(NS(w.w)) ==> SE(w.w, k).start == old(SE(w.w, k).start) && SE(w.w, k).tableStart == old(SE(w.w, k).tableStart) && SE(w.w, k).type_ == old(SE(w.w, k).type_))
 //@   ensures[C12] WI(w.w)
 //@   ensures[C12] w.w.err == nil ==> STK1(w.w)
 //@   ensures[C12] w.w.err == nil ==> STK2(w.w)
@@ -1128,6 +1186,7 @@ package writer
 //@   modifies @BUF
 //@   preserves result == nil : @NOTSTACKS
 //@   ensures[C01] old(w.w.err) == nil && result == nil ==> NS(w.w) == old(NS(w.w)) + 1 && SE(w.w, NS(w.w) - 1).type_ == 1 && SE(w.w, NS(w.w) - 1).start == old(BL(w.w)) && SE(w.w, NS(w.w) - 1).tableStart == BL(w.w)
+//@   ensures[C01] old(w.w.err) == nil && result == nil ==> (forall k :: 0 <= k && k < old(NS(w.w)) ==> SE(w.w, k).start == old(SE(w.w, k).start) && SE(w.w, k).tableStart == old(SE(w.w, k).tableStart) && SE(w.w, k).type_ == old(SE(w.w, k).type_))
 //@   ensures[C12] WI(w.w)
 //@   ensures[C12] w.w.err == nil ==> STK1(w.w)
 //@   ensures[C12] w.w.err == nil ==> STK2(w.w)
@@ -1152,6 +1211,7 @@ package writer
 //@   modifies @BUF
 //@   preserves result == nil : @NOTSTACKS
 //@   ensures[C01] old(w.w.err) == nil && result == nil ==> NS(w.w) == old(NS(w.w)) + 1 && SE(w.w, NS(w.w) - 1).type_ == 1 && SE(w.w, NS(w.w) - 1).start == old(BL(w.w)) && SE(w.w, NS(w.w) - 1).tableStart == BL(w.w)
+//@   ensures[C01] old(w.w.err) == nil && result == nil ==> (forall k :: 0 <= k && k < old(NS(w.w)) ==> SE(w.w, k).start == old(SE(w.w, k).start) && SE(w.w, k).tableStart == old(SE(w.w, k).tableStart) && SE(w.w, k).type_ == old(SE(w.w, k).type_))
 //@   ensures[C12] WI(w.w)
 //@   ensures[C12] w.w.err == nil ==> STK1(w.w)
 //@   ensures[C12] w.w.err == nil ==> STK2(w.w)
@@ -1176,6 +1236,7 @@ package writer
 //@   modifies @BUF
 //@   preserves result == nil : @NOTSTACKS
 //@   ensures[C01] old(w.w.err) == nil && result == nil ==> NS(w.w) == old(NS(w.w)) + 1 && SE(w.w, NS(w.w) - 1).type_ == 1 && SE(w.w, NS(w.w) - 1).start == old(BL(w.w)) && SE(w.w, NS(w.w) - 1).tableStart == BL(w.w)
+//@   ensures[C01] old(w.w.err) == nil && result == nil ==> (forall k :: 0 <= k && k < old(NS(w.w)) ==> SE(w.w, k).start == old(SE(w.w, k).start) && SE(w.w, k).tableStart == old(SE(w.w, k).tableStart) && SE(w.w, k).type_ == old(SE(w.w, k).type_))
 //@   ensures[C12] WI(w.w)
 //@   ensures[C12] w.w.err == nil ==> STK1(w.w)
 //@   ensures[C12] w.w.err == nil ==> STK2(w.w)
@@ -1200,6 +1261,7 @@ package writer
 //@   modifies @BUF
 //@   preserves result == nil : @NOTSTACKS
 //@   ensures[C01] old(w.w.err) == nil && result == nil ==> NS(w.w) == old(NS(w.w)) + 1 && SE(w.w, NS(w.w) - 1).type_ == 1 && SE(w.w, NS(w.w) - 1).start == old(BL(w.w)) && SE(w.w, NS(w.w) - 1).tableStart == BL(w.w)
+//@   ensures[C01] old(w.w.err) == nil && result == nil ==> (forall k :: 0 <= k && k < old(NS(w.w)) ==> SE(w.w, k).start == old(SE(w.w, k).start) && SE(w.w, k).tableStart == old(SE(w.w, k).tableStart) && SE(w.w, k).type_ == old(SE(w.w, k).type_))
 //@   ensures[C12] WI(w.w)
 //@   ensures[C12] w.w.err == nil ==> STK1(w.w)
 //@   ensures[C12] w.w.err == nil ==> STK2(w.w)
@@ -1774,6 +1836,23 @@ package writer
 //@   modifies @WRITER
 //@   modifies @BUF
 //@   modifies writer.MessageWriter.*
+//@   let bB = m.w.writerState.buf
+//@   let bS = SE(m.w, 0).start
+//@   let bT0 = SE(m.w, 0).tableStart
+//@   let bN = NF(m.w) - bT0
+//@   let bL0 = BL(m.w)
+//@   let bDS = bL0 - bS
+//@   let bTab = m.w.writerState.fields.stack[bT0:NF(m.w)]
+//@   let bBig = exists k :: 0 <= k && k < len(bTab) && (bTab[k].Tag > 255 || bTab[k].Offset > 65535)
+//@   let bTS = bN * ite(bBig, 6, 3)
+//@   let bRoot = m.w != nil && m.w.err == nil && NS(m.w) == 1 && SE(m.w, 0).type_ == 4
+//@   ensures[C01] bRoot && result1 == nil ==> obj(result0) == bobj(bB) && lo(result0) == bS && len(result0) == bDS + bTS + uvarintLen(bDS) + uvarintLen(bTS) + 1
+//@   ensures[C01] bRoot && result1 == nil && !bBig ==> (forall k :: 0 <= k && k < bN ==> smallTag(bytesOf(bobj(bB)), bL0, k) == old(bTab[k].Tag) && smallOff(bytesOf(bobj(bB)), bL0, k) == old(bTab[k].Offset))
+//@   ensures[C01] bRoot && result1 == nil && bBig ==> (forall k :: 0 <= k && k < bN ==> bigTag(bytesOf(bobj(bB)), bL0, k) == old(bTab[k].Tag) && bigOff(bytesOf(bobj(bB)), bL0, k) == old(bTab[k].Offset))
+//@   ensures[C01] bRoot && result1 == nil ==> isUvarint(bytesOf(bobj(bB)), bL0 + bTS, uvarintLen(bDS), bDS)
+//@   ensures[C01] bRoot && result1 == nil ==> isUvarint(bytesOf(bobj(bB)), bL0 + bTS + uvarintLen(bDS), uvarintLen(bTS), bTS)
+//@   ensures[C01] bRoot && result1 == nil ==> bytesOf(bobj(bB))[bL0 + bTS + uvarintLen(bDS) + uvarintLen(bTS)] == ite(bBig, 81, 80)
+//@   ensures[C01] bRoot && result1 == nil ==> (forall i :: 0 <= i && i < bL0 ==> bytesOf(bobj(bB))[i] == old(bytesOf(bobj(bB)))[i])
 
 //@ func (*MessageWriter).End
 //@   safety[C12]
@@ -1825,6 +1904,9 @@ package writer
 //@   modifies @WRITER
 //@   modifies @BUF
 //@   ensures[C01] old(f.w.err) == nil && result == nil ==> NF(f.w) == old(NF(f.w)) + 1 && NS(f.w) == old(NS(f.w))
+//@   preserves old(f.w.err) == nil && result == nil : @NOTSF
+//@   ensures[C01] old(f.w.err) == nil && result == nil && BL(f.w) - old(SE(f.w, NS(f.w) - 1).start) <= 4294967295 ==> (exists p :: old(SE(f.w, NS(f.w) - 1).tableStart) <= p && p < NF(f.w) && FE(f.w, p).Tag == f.tag && FE(f.w, p).Offset == BL(f.w) - old(SE(f.w, NS(f.w) - 1).start))
+//@   ensures[C01] old(f.w.err) == nil && result == nil ==> (forall k :: 0 <= k && k < NS(f.w) ==> SE(f.w, k).start == old(SE(f.w, k).start) && SE(f.w, k).tableStart == old(SE(f.w, k).tableStart) && SE(f.w, k).type_ == old(SE(f.w, k).type_))
 //@   ensures[C12] WI(f.w)
 //@   ensures[C12] f.w.err == nil ==> STK1(f.w)
 //@   ensures[C12] f.w.err == nil ==> STK2(f.w)
@@ -1848,6 +1930,9 @@ package writer
 //@   modifies @WRITER
 //@   modifies @BUF
 //@   ensures[C01] old(f.w.err) == nil && result == nil ==> NF(f.w) == old(NF(f.w)) + 1 && NS(f.w) == old(NS(f.w))
+//@   preserves old(f.w.err) == nil && result == nil : @NOTSF
+//@   ensures[C01] old(f.w.err) == nil && result == nil && BL(f.w) - old(SE(f.w, NS(f.w) - 1).start) <= 4294967295 ==> (exists p :: old(SE(f.w, NS(f.w) - 1).tableStart) <= p && p < NF(f.w) && FE(f.w, p).Tag == f.tag && FE(f.w, p).Offset == BL(f.w) - old(SE(f.w, NS(f.w) - 1).start))
+//@   ensures[C01] old(f.w.err) == nil && result == nil ==> (forall k :: 0 <= k && k < NS(f.w) ==> SE(f.w, k).start == old(SE(f.w, k).start) && SE(f.w, k).tableStart == old(SE(f.w, k).tableStart) && SE(f.w, k).type_ == old(SE(f.w, k).type_))
 //@   ensures[C12] WI(f.w)
 //@   ensures[C12] f.w.err == nil ==> STK1(f.w)
 //@   ensures[C12] f.w.err == nil ==> STK2(f.w)
@@ -1871,6 +1956,9 @@ package writer
 //@   modifies @WRITER
 //@   modifies @BUF
 //@   ensures[C01] old(f.w.err) == nil && result == nil ==> NF(f.w) == old(NF(f.w)) + 1 && NS(f.w) == old(NS(f.w))
+//@   preserves old(f.w.err) == nil && result == nil : @NOTSF
+//@   ensures[C01] old(f.w.err) == nil && result == nil && BL(f.w) - old(SE(f.w, NS(f.w) - 1).start) <= 4294967295 ==> (exists p :: old(SE(f.w, NS(f.w) - 1).tableStart) <= p && p < NF(f.w) && FE(f.w, p).Tag == f.tag && FE(f.w, p).Offset == BL(f.w) - old(SE(f.w, NS(f.w) - 1).start))
+//@   ensures[C01] old(f.w.err) == nil && result == nil ==> (forall k :: 0 <= k && k < NS(f.w) ==> SE(f.w, k).start == old(SE(f.w, k).start) && SE(f.w, k).tableStart == old(SE(f.w, k).tableStart) && SE(f.w, k).type_ == old(SE(f.w, k).type_))
 //@   ensures[C12] WI(f.w)
 //@   ensures[C12] f.w.err == nil ==> STK1(f.w)
 //@   ensures[C12] f.w.err == nil ==> STK2(f.w)
@@ -1894,6 +1982,11 @@ package writer
 //@   modifies @WRITER
 //@   modifies @BUF
 //@   ensures[C01] old(f.w.err) == nil && result == nil ==> NF(f.w) == old(NF(f.w)) + 1 && NS(f.w) == old(NS(f.w))
+//@   preserves old(f.w.err) == nil && result == nil : @NOTSF
+//@   ensures[C01] old(f.w.err) == nil && result == nil && BL(f.w) - old(SE(f.w, NS(f.w) - 1).start) <= 4294967295 ==> (exists p :: old(SE(f.w, NS(f.w) - 1).tableStart) <= p && p < NF(f.w) && FE(f.w, p).Tag == f.tag && FE(f.w, p).Offset == BL(f.w) - old(SE(f.w, NS(f.w) - 1).start))
+//@   ensures[C01] old(f.w.err) == nil && result == nil ==> (forall k :: 0 <= k && k < NS(f.w) ==> SE(f.w, k).start == old(SE(f.w, k).start) && SE(f.w, k).tableStart == old(SE(f.w, k).tableStart) && SE(f.w, k).type_ == old(SE(f.w, k).type_))
+//@   ensures[C01] old(f.w.err) == nil && result == nil ==> BL(f.w) == old(BL(f.w)) + uvarintLen(zigzag(v)) + 1 && isUvarint(bytesOf(bobj(f.w.writerState.buf)), old(BL(f.w)), uvarintLen(zigzag(v)), zigzag(v)) && bytesOf(bobj(f.w.writerState.buf))[BL(f.w) - 1] == 11
+//@   ensures[C01] old(f.w.err) == nil && result == nil ==> (forall i :: 0 <= i && i < old(BL(f.w)) ==> bytesOf(bobj(f.w.writerState.buf))[i] == old(bytesOf(bobj(f.w.writerState.buf)))[i])
 //@   ensures[C12] WI(f.w)
 //@   ensures[C12] f.w.err == nil ==> STK1(f.w)
 //@   ensures[C12] f.w.err == nil ==> STK2(f.w)
@@ -1917,6 +2010,9 @@ package writer
 //@   modifies @WRITER
 //@   modifies @BUF
 //@   ensures[C01] old(f.w.err) == nil && result == nil ==> NF(f.w) == old(NF(f.w)) + 1 && NS(f.w) == old(NS(f.w))
+//@   preserves old(f.w.err) == nil && result == nil : @NOTSF
+//@   ensures[C01] old(f.w.err) == nil && result == nil && BL(f.w) - old(SE(f.w, NS(f.w) - 1).start) <= 4294967295 ==> (exists p :: old(SE(f.w, NS(f.w) - 1).tableStart) <= p && p < NF(f.w) && FE(f.w, p).Tag == f.tag && FE(f.w, p).Offset == BL(f.w) - old(SE(f.w, NS(f.w) - 1).start))
+//@   ensures[C01] old(f.w.err) == nil && result == nil ==> (forall k :: 0 <= k && k < NS(f.w) ==> SE(f.w, k).start == old(SE(f.w, k).start) && SE(f.w, k).tableStart == old(SE(f.w, k).tableStart) && SE(f.w, k).type_ == old(SE(f.w, k).type_))
 //@   ensures[C12] WI(f.w)
 //@   ensures[C12] f.w.err == nil ==> STK1(f.w)
 //@   ensures[C12] f.w.err == nil ==> STK2(f.w)
@@ -1940,6 +2036,9 @@ package writer
 //@   modifies @WRITER
 //@   modifies @BUF
 //@   ensures[C01] old(f.w.err) == nil && result == nil ==> NF(f.w) == old(NF(f.w)) + 1 && NS(f.w) == old(NS(f.w))
+//@   preserves old(f.w.err) == nil && result == nil : @NOTSF
+//@   ensures[C01] old(f.w.err) == nil && result == nil && BL(f.w) - old(SE(f.w, NS(f.w) - 1).start) <= 4294967295 ==> (exists p :: old(SE(f.w, NS(f.w) - 1).tableStart) <= p && p < NF(f.w) && FE(f.w, p).Tag == f.tag && FE(f.w, p).Offset == BL(f.w) - old(SE(f.w, NS(f.w) - 1).start))
+//@   ensures[C01] old(f.w.err) == nil && result == nil ==> (forall k :: 0 <= k && k < NS(f.w) ==> SE(f.w, k).start == old(SE(f.w, k).start) && SE(f.w, k).tableStart == old(SE(f.w, k).tableStart) && SE(f.w, k).type_ == old(SE(f.w, k).type_))
 //@   ensures[C12] WI(f.w)
 //@   ensures[C12] f.w.err == nil ==> STK1(f.w)
 //@   ensures[C12] f.w.err == nil ==> STK2(f.w)
@@ -1963,6 +2062,9 @@ package writer
 //@   modifies @WRITER
 //@   modifies @BUF
 //@   ensures[C01] old(f.w.err) == nil && result == nil ==> NF(f.w) == old(NF(f.w)) + 1 && NS(f.w) == old(NS(f.w))
+//@   preserves old(f.w.err) == nil && result == nil : @NOTSF
+//@   ensures[C01] old(f.w.err) == nil && result == nil && BL(f.w) - old(SE(f.w, NS(f.w) - 1).start) <= 4294967295 ==> (exists p :: old(SE(f.w, NS(f.w) - 1).tableStart) <= p && p < NF(f.w) && FE(f.w, p).Tag == f.tag && FE(f.w, p).Offset == BL(f.w) - old(SE(f.w, NS(f.w) - 1).start))
+//@   ensures[C01] old(f.w.err) == nil && result == nil ==> (forall k :: 0 <= k && k < NS(f.w) ==> SE(f.w, k).start == old(SE(f.w, k).start) && SE(f.w, k).tableStart == old(SE(f.w, k).tableStart) && SE(f.w, k).type_ == old(SE(f.w, k).type_))
 //@   ensures[C12] WI(f.w)
 //@   ensures[C12] f.w.err == nil ==> STK1(f.w)
 //@   ensures[C12] f.w.err == nil ==> STK2(f.w)
@@ -1986,6 +2088,9 @@ package writer
 //@   modifies @WRITER
 //@   modifies @BUF
 //@   ensures[C01] old(f.w.err) == nil && result == nil ==> NF(f.w) == old(NF(f.w)) + 1 && NS(f.w) == old(NS(f.w))
+//@   preserves old(f.w.err) == nil && result == nil : @NOTSF
+//@   ensures[C01] old(f.w.err) == nil && result == nil && BL(f.w) - old(SE(f.w, NS(f.w) - 1).start) <= 4294967295 ==> (exists p :: old(SE(f.w, NS(f.w) - 1).tableStart) <= p && p < NF(f.w) && FE(f.w, p).Tag == f.tag && FE(f.w, p).Offset == BL(f.w) - old(SE(f.w, NS(f.w) - 1).start))
+//@   ensures[C01] old(f.w.err) == nil && result == nil ==> (forall k :: 0 <= k && k < NS(f.w) ==> SE(f.w, k).start == old(SE(f.w, k).start) && SE(f.w, k).tableStart == old(SE(f.w, k).tableStart) && SE(f.w, k).type_ == old(SE(f.w, k).type_))
 //@   ensures[C12] WI(f.w)
 //@   ensures[C12] f.w.err == nil ==> STK1(f.w)
 //@   ensures[C12] f.w.err == nil ==> STK2(f.w)
@@ -2009,6 +2114,9 @@ package writer
 //@   modifies @WRITER
 //@   modifies @BUF
 //@   ensures[C01] old(f.w.err) == nil && result == nil ==> NF(f.w) == old(NF(f.w)) + 1 && NS(f.w) == old(NS(f.w))
+//@   preserves old(f.w.err) == nil && result == nil : @NOTSF
+//@   ensures[C01] old(f.w.err) == nil && result == nil && BL(f.w) - old(SE(f.w, NS(f.w) - 1).start) <= 4294967295 ==> (exists p :: old(SE(f.w, NS(f.w) - 1).tableStart) <= p && p < NF(f.w) && FE(f.w, p).Tag == f.tag && FE(f.w, p).Offset == BL(f.w) - old(SE(f.w, NS(f.w) - 1).start))
+//@   ensures[C01] old(f.w.err) == nil && result == nil ==> (forall k :: 0 <= k && k < NS(f.w) ==> SE(f.w, k).start == old(SE(f.w, k).start) && SE(f.w, k).tableStart == old(SE(f.w, k).tableStart) && SE(f.w, k).type_ == old(SE(f.w, k).type_))
 //@   ensures[C12] WI(f.w)
 //@   ensures[C12] f.w.err == nil ==> STK1(f.w)
 //@   ensures[C12] f.w.err == nil ==> STK2(f.w)
@@ -2032,6 +2140,9 @@ package writer
 //@   modifies @WRITER
 //@   modifies @BUF
 //@   ensures[C01] old(f.w.err) == nil && result == nil ==> NF(f.w) == old(NF(f.w)) + 1 && NS(f.w) == old(NS(f.w))
+//@   preserves old(f.w.err) == nil && result == nil : @NOTSF
+//@   ensures[C01] old(f.w.err) == nil && result == nil && BL(f.w) - old(SE(f.w, NS(f.w) - 1).start) <= 4294967295 ==> (exists p :: old(SE(f.w, NS(f.w) - 1).tableStart) <= p && p < NF(f.w) && FE(f.w, p).Tag == f.tag && FE(f.w, p).Offset == BL(f.w) - old(SE(f.w, NS(f.w) - 1).start))
+//@   ensures[C01] old(f.w.err) == nil && result == nil ==> (forall k :: 0 <= k && k < NS(f.w) ==> SE(f.w, k).start == old(SE(f.w, k).start) && SE(f.w, k).tableStart == old(SE(f.w, k).tableStart) && SE(f.w, k).type_ == old(SE(f.w, k).type_))
 //@   ensures[C12] WI(f.w)
 //@   ensures[C12] f.w.err == nil ==> STK1(f.w)
 //@   ensures[C12] f.w.err == nil ==> STK2(f.w)
@@ -2055,6 +2166,9 @@ package writer
 //@   modifies @WRITER
 //@   modifies @BUF
 //@   ensures[C01] old(f.w.err) == nil && result == nil ==> NF(f.w) == old(NF(f.w)) + 1 && NS(f.w) == old(NS(f.w))
+//@   preserves old(f.w.err) == nil && result == nil : @NOTSF
+//@   ensures[C01] old(f.w.err) == nil && result == nil && BL(f.w) - old(SE(f.w, NS(f.w) - 1).start) <= 4294967295 ==> (exists p :: old(SE(f.w, NS(f.w) - 1).tableStart) <= p && p < NF(f.w) && FE(f.w, p).Tag == f.tag && FE(f.w, p).Offset == BL(f.w) - old(SE(f.w, NS(f.w) - 1).start))
+//@   ensures[C01] old(f.w.err) == nil && result == nil ==> (forall k :: 0 <= k && k < NS(f.w) ==> SE(f.w, k).start == old(SE(f.w, k).start) && SE(f.w, k).tableStart == old(SE(f.w, k).tableStart) && SE(f.w, k).type_ == old(SE(f.w, k).type_))
 //@   ensures[C12] WI(f.w)
 //@   ensures[C12] f.w.err == nil ==> STK1(f.w)
 //@   ensures[C12] f.w.err == nil ==> STK2(f.w)
@@ -2078,6 +2192,9 @@ package writer
 //@   modifies @WRITER
 //@   modifies @BUF
 //@   ensures[C01] old(f.w.err) == nil && result == nil ==> NF(f.w) == old(NF(f.w)) + 1 && NS(f.w) == old(NS(f.w))
+//@   preserves old(f.w.err) == nil && result == nil : @NOTSF
+//@   ensures[C01] old(f.w.err) == nil && result == nil && BL(f.w) - old(SE(f.w, NS(f.w) - 1).start) <= 4294967295 ==> (exists p :: old(SE(f.w, NS(f.w) - 1).tableStart) <= p && p < NF(f.w) && FE(f.w, p).Tag == f.tag && FE(f.w, p).Offset == BL(f.w) - old(SE(f.w, NS(f.w) - 1).start))
+//@   ensures[C01] old(f.w.err) == nil && result == nil ==> (forall k :: 0 <= k && k < NS(f.w) ==> SE(f.w, k).start == old(SE(f.w, k).start) && SE(f.w, k).tableStart == old(SE(f.w, k).tableStart) && SE(f.w, k).type_ == old(SE(f.w, k).type_))
 //@   ensures[C12] WI(f.w)
 //@   ensures[C12] f.w.err == nil ==> STK1(f.w)
 //@   ensures[C12] f.w.err == nil ==> STK2(f.w)
@@ -2101,6 +2218,9 @@ package writer
 //@   modifies @WRITER
 //@   modifies @BUF
 //@   ensures[C01] old(f.w.err) == nil && result == nil ==> NF(f.w) == old(NF(f.w)) + 1 && NS(f.w) == old(NS(f.w))
+//@   preserves old(f.w.err) == nil && result == nil : @NOTSF
+//@   ensures[C01] old(f.w.err) == nil && result == nil && BL(f.w) - old(SE(f.w, NS(f.w) - 1).start) <= 4294967295 ==> (exists p :: old(SE(f.w, NS(f.w) - 1).tableStart) <= p && p < NF(f.w) && FE(f.w, p).Tag == f.tag && FE(f.w, p).Offset == BL(f.w) - old(SE(f.w, NS(f.w) - 1).start))
+//@   ensures[C01] old(f.w.err) == nil && result == nil ==> (forall k :: 0 <= k && k < NS(f.w) ==> SE(f.w, k).start == old(SE(f.w, k).start) && SE(f.w, k).tableStart == old(SE(f.w, k).tableStart) && SE(f.w, k).type_ == old(SE(f.w, k).type_))
 //@   ensures[C12] WI(f.w)
 //@   ensures[C12] f.w.err == nil ==> STK1(f.w)
 //@   ensures[C12] f.w.err == nil ==> STK2(f.w)
@@ -2124,6 +2244,9 @@ package writer
 //@   modifies @WRITER
 //@   modifies @BUF
 //@   ensures[C01] old(f.w.err) == nil && result == nil ==> NF(f.w) == old(NF(f.w)) + 1 && NS(f.w) == old(NS(f.w))
+//@   preserves old(f.w.err) == nil && result == nil : @NOTSF
+//@   ensures[C01] old(f.w.err) == nil && result == nil && BL(f.w) - old(SE(f.w, NS(f.w) - 1).start) <= 4294967295 ==> (exists p :: old(SE(f.w, NS(f.w) - 1).tableStart) <= p && p < NF(f.w) && FE(f.w, p).Tag == f.tag && FE(f.w, p).Offset == BL(f.w) - old(SE(f.w, NS(f.w) - 1).start))
+//@   ensures[C01] old(f.w.err) == nil && result == nil ==> (forall k :: 0 <= k && k < NS(f.w) ==> SE(f.w, k).start == old(SE(f.w, k).start) && SE(f.w, k).tableStart == old(SE(f.w, k).tableStart) && SE(f.w, k).type_ == old(SE(f.w, k).type_))
 //@   ensures[C12] WI(f.w)
 //@   ensures[C12] f.w.err == nil ==> STK1(f.w)
 //@   ensures[C12] f.w.err == nil ==> STK2(f.w)
@@ -2147,6 +2270,9 @@ package writer
 //@   modifies @WRITER
 //@   modifies @BUF
 //@   ensures[C01] old(f.w.err) == nil && result == nil ==> NF(f.w) == old(NF(f.w)) + 1 && NS(f.w) == old(NS(f.w))
+//@   preserves old(f.w.err) == nil && result == nil : @NOTSF
+//@   ensures[C01] old(f.w.err) == nil && result == nil && BL(f.w) - old(SE(f.w, NS(f.w) - 1).start) <= 4294967295 ==> (exists p :: old(SE(f.w, NS(f.w) - 1).tableStart) <= p && p < NF(f.w) && FE(f.w, p).Tag == f.tag && FE(f.w, p).Offset == BL(f.w) - old(SE(f.w, NS(f.w) - 1).start))
+//@   ensures[C01] old(f.w.err) == nil && result == nil ==> (forall k :: 0 <= k && k < NS(f.w) ==> SE(f.w, k).start == old(SE(f.w, k).start) && SE(f.w, k).tableStart == old(SE(f.w, k).tableStart) && SE(f.w, k).type_ == old(SE(f.w, k).type_))
 //@   ensures[C12] WI(f.w)
 //@   ensures[C12] f.w.err == nil ==> STK1(f.w)
 //@   ensures[C12] f.w.err == nil ==> STK2(f.w)
@@ -2268,6 +2394,9 @@ package writer
 //@   ensures[C12] w.err == nil ==> STK7(w)
 //@   ensures[C12] old(w.err) != nil ==> w.err == old(w.err)
 //@   ensures[C12] result.w == w
+//@   preserves old(w.err) == nil : @NOTSTACKS
+//@   ensures[C01] old(w.err) == nil ==> w.err == nil && NS(w) == old(NS(w)) + 1 && SE(w, NS(w) - 1).type_ == 4 && SE(w, NS(w) - 1).start == old(BL(w)) && SE(w, NS(w) - 1).tableStart == old(NF(w)) && NE(w) == old(NE(w)) && NF(w) == old(NF(w)) && BL(w) == old(BL(w))
+//@   ensures[C01] old(w.err) == nil ==> (forall k :: 0 <= k && k < old(NS(w)) ==> SE(w, k).start == old(SE(w, k).start) && SE(w, k).tableStart == old(SE(w, k).tableStart) && SE(w, k).type_ == old(SE(w, k).type_))
 
 //@ func (*writer).fieldAny
 //@   safety[C12]
